@@ -366,15 +366,26 @@ def _run_machine(mod, sub, res, findings, seedval, n, tier, t0, budget_s):
     from hypothesis.stateful import run_state_machine_as_test
 
     M = sub.machine(tier)
-    state = {'last': None}
+    state = {'last': None, 'last_fail': None}
 
     class Wrapped(M):  # type: ignore[misc,valid-type]
         def __init__(self):
             super().__init__()
             state['last'] = self
 
+        def step(self, op):
+            try:
+                super().step(op)
+            except Violation as v:
+                state['last_fail'] = (v.clause, v.detail, list(self.log))
+                raise
+
         def teardown(self):
-            super().teardown()
+            try:
+                super().teardown()
+            except Violation as v:
+                state['last_fail'] = (v.clause, v.detail, list(self.log))
+                raise
             if not getattr(self, '_failed', False):
                 res.record({'log': self.log}, self.info())
 
@@ -405,6 +416,20 @@ def _run_machine(mod, sub, res, findings, seedval, n, tier, t0, budget_s):
             res.excluded[f['key']] += 1
         else:
             res.violation = (clause, detail, case)
+    except BaseException as e:  # noqa: BLE001
+        # e.g. Hypothesis' FlakyFailure: the failing history passed when replayed.  That happens for violations that depend on
+        # memory addresses (a new object re-using the address of a collected one).  A violation that was observed is reported.
+        if state['last_fail'] is None or isinstance(e, KeyboardInterrupt):
+            raise
+        clause, detail, log = state['last_fail']
+        try:
+            sub.run({'log': log})
+            detail += ' [observed during generation; the replay of this history passed - allocation dependent]'
+        except Violation as v2:
+            clause, detail = v2.clause, v2.detail
+        except Exception:  # noqa: BLE001
+            pass
+        res.violation = (clause, detail, {'log': log})
 
 
 def _run_fuzz(mod, sub, res, findings, seedval, n, tier, shard):
